@@ -35,6 +35,7 @@ func runC04(c *Ctx) {
 	// shared rule: history/tree scanners stop only at the end of their input (rules_c05.go)
 	scannerVerdictRule(c, "R7")
 	c04WaitingPaths(c)
+	c04IncludeExclude(c)
 	run := p.Fn("commands", "(*singleCheckout).Run")
 	if run == nil {
 		c.Missing("R1", "(*singleCheckout).Run", "not found")
@@ -416,6 +417,19 @@ func c04Errors(c *Ctx) {
 			call := ci.(*ssa.Call)
 			used := len(Referrers(call)) > 0
 			c.Check(used, "R5", "fetchCommand:uses-result-of:"+CalleeName(call.Common()), p.InstrPos(ci), "result folded into the success flag", "the result of "+CalleeName(call.Common())+" is discarded")
+			// a failure is sticky: once this call has answered false, every feasible way to the end of the command
+			// leaves through the failure exit — whatever later calls (including later iterations of this one) answer
+			escaped := ""
+			init := PState{call: boolConst(false, call.Type())}
+			ExploreX(nil, call, init, noReturnCommands, nil, nil, func(in ssa.Instruction, st PState) bool {
+				if r, ok := in.(*ssa.Return); ok && r.Block().Comment != "recover" {
+					escaped = p.InstrPos(r)
+					return false
+				}
+				return escaped == ""
+			})
+			c.Check(escaped == "", "R5", "fetchCommand:failure-is-sticky:"+CalleeName(call.Common()), p.InstrPos(ci), "after a failed fetch the command always ends in the failure exit",
+				"after "+CalleeName(call.Common())+" reported a failure the command can still end normally ("+escaped+"): the result overwrites the success flag instead of being and-ed into it, so a later success hides the failure and the command exits 0 with objects missing")
 		}
 	}
 }
@@ -530,6 +544,59 @@ func c04WaitingPaths(c *Ctx) {
 				g, path := Guarded(seen.Blocks[0], r, pass, nil)
 				c.Check(g && nonVacuous(pass), "R8", "Seen-true-only-for-entry", p.InstrPos(r), "a path is parked only behind an existing entry", "pointerMap.Seen can report a download in flight without an entry for the OID: the path is neither queued nor checked out: "+path)
 			}
+		}
+	}
+}
+
+// c04IncludeExclude (R3, option/config merge): -I replaces lfs.fetchinclude and -X replaces lfs.fetchexclude,
+// each on its own: giving only one of the flags must leave the other side's configured list in force. Decided on
+// the merge function: the configured include list is consulted under a condition on the include argument only
+// (and the use-config switch), likewise for exclude.
+func c04IncludeExclude(c *Ctx) {
+	p := c.P
+	fn := p.Fn("commands", "determineIncludeExcludePaths")
+	if fn == nil {
+		c.Missing("R3", "commands.determineIncludeExcludePaths", "not found")
+		return
+	}
+	var incArg, excArg *ssa.Parameter
+	for _, prm := range fn.Params {
+		switch prm.Name() {
+		case "includeArg":
+			incArg = prm
+		case "excludeArg":
+			excArg = prm
+		}
+	}
+	for _, side := range []struct {
+		getter string
+		own    *ssa.Parameter
+		other  *ssa.Parameter
+		name   string
+	}{
+		{"(*config.Configuration).FetchIncludePaths", incArg, excArg, "include"},
+		{"(*config.Configuration).FetchExcludePaths", excArg, incArg, "exclude"},
+	} {
+		calls := CallsIn(fn, side.getter)
+		if len(calls) == 0 || side.own == nil || side.other == nil {
+			c.Bad("R3", "configured-"+side.name+"-consulted", p.Pos(fn.Pos()), "the configured "+side.name+" paths are never consulted (or the flag parameters were not found)")
+			continue
+		}
+		for _, ci := range calls {
+			bad := ""
+			ownTested := false
+			for _, dc := range decidingConds(fn, ci.Block()) {
+				for _, l := range p.LeavesNoFields(dc.Cond, nil) {
+					if l == ssa.Value(side.other) {
+						bad = describeCond(dc.Cond)
+					}
+					if l == ssa.Value(side.own) {
+						ownTested = true
+					}
+				}
+			}
+			c.Check(bad == "" && ownTested, "R3", "configured-"+side.name+"-independent-of-other-flag", p.InstrPos(ci), "lfs.fetch"+side.name+" applies whenever its own flag is absent",
+				"whether the configured "+side.name+" paths apply depends on the OTHER flag ("+bad+"): giving only -I (or only -X) silently drops the configured list of the other side, so excluded paths are downloaded and materialised")
 		}
 	}
 }
